@@ -189,7 +189,7 @@ func Concretise(g GenCase, rng *rand.Rand) (Case, bool) {
 		case "rejected":
 			switch st.AType {
 			case "jwt":
-				st.Shape = pick(rng, "badsig", "wrongiss", "expired")
+				st.Shape = pick(rng, "badsig", "wrongiss", "expired", "hs256")
 			case "oauth2_introspection":
 				st.Shape = pick(rng, "inactive", "wrongiss")
 			default:
